@@ -139,7 +139,7 @@ def run_into(res, tier, want_tags=None, features="full"):
             bad("handler saw another context", "context")
     res.parts["reply_cases_" + features] = len(cases)
     if cases:
-        res.sample({"reply": cases[40]["input"], "program": cases[40]["prog"], "observation": obs[40]})
+        res.sample(lambda: {"reply": cases[40]["input"], "program": cases[40]["prog"], "observation": obs[40]})
 
 
 def run(tier):
